@@ -22,6 +22,8 @@ type Profile struct {
 	NoRefreshScopes, NoRefreshGrant                                       int // percent: refresh scopes [] / clients without the refresh_token grant
 	MinOps, MaxOps                                                        int
 	PkceFlags                                                             bool // randomise enforcement flags
+	Hybrid, Implicit                                                      int  // percent of authorizations using "code token" / "token"
+	RawStore                                                              int  // percent of histories on the raw MemoryStore (monitors only)
 	Smuggle                                                               int
 }
 
@@ -111,10 +113,14 @@ func newGen(r *RNG, p *Profile) *gen {
 		c.LifeDev, c.ParLife = 3000+int64(r.Intn(4))*250, 2000+int64(r.Intn(3))*500
 	}
 	c.ParEnforced = r.Chance(p.ParEnforce)
+	c.RawStore = r.Chance(p.RawStore)
 	n := 2 + r.Intn(3)
 	for i := 0; i < n; i++ {
 		cl := HClient{Public: r.Chance(30)}
-		cl.Grants = []string{"authorization_code", "refresh_token", "password", "client_credentials", "urn:ietf:params:oauth:grant-type:device_code"}
+		cl.Grants = []string{"authorization_code", "refresh_token", "password", "client_credentials", "urn:ietf:params:oauth:grant-type:device_code", "implicit"}
+		if r.Chance(20) {
+			cl.Grants = cl.Grants[:5]
+		}
 		if r.Chance(18 + p.NoRefreshGrant) {
 			cl.Grants = []string{"authorization_code", "password", "urn:ietf:params:oauth:grant-type:device_code"}
 		}
@@ -202,6 +208,14 @@ func (g *gen) next() HOp {
 			op.Redirect = clientRedirect(op.Client)
 		}
 		op.ForeignURI = r.Chance(15)
+		if r.Chance(p.Hybrid) {
+			op.RType = "code token"
+			if r.Chance(85) {
+				op.Redirect = clientRedirect(op.Client)
+			}
+		} else if r.Chance(p.Implicit) {
+			op.RType = "token"
+		}
 		if r.Chance(35) {
 			op.Aud = g.subset(audPool, 40)
 		}
@@ -595,8 +609,12 @@ func genHistory(t *testing.T, r *RNG, p *Profile) (*HHistory, []HObs) {
 			// update the generator's picture
 			switch op.Kind {
 			case "authorize":
-				if len(o.Minted) == 1 {
-					g.toks = append(g.toks, gTok{kind: "code", client: op.Client, family: len(g.toks), redirect: op.Redirect, verifier: verifier, method: op.Method, issuedAt: g.now, scopes: op.Scopes})
+				for _, m := range o.Minted {
+					if m == "code" {
+						g.toks = append(g.toks, gTok{kind: "code", client: op.Client, family: len(g.toks), redirect: op.Redirect, verifier: verifier, method: op.Method, issuedAt: g.now, scopes: op.Scopes})
+					} else {
+						g.toks = append(g.toks, gTok{kind: "access", client: op.Client, family: len(g.toks), issuedAt: g.now, scopes: op.Scopes})
+					}
 				}
 			case "push":
 				if len(o.Minted) == 1 {
